@@ -205,9 +205,13 @@ func (s *Service) prune(ctx context.Context) {
 				failedSet[eh.Height()] = struct{}{}
 				failed++
 			} else {
-				lastPrunedHeader = eh
 				successful++
 			}
+			// Advance past failed headers too: they are recorded in the checkpoint's
+			// failed set and retried at the start of every cycle. Leaving the cursor
+			// behind them makes a full batch without a single success be found again
+			// right away, so the loop would spin here holding checkpointMu until Stop.
+			lastPrunedHeader = eh
 		}
 
 		err = s.updateCheckpoint(s.ctx, lastPrunedHeader.Height(), failedSet)
